@@ -26,7 +26,7 @@ def run_property(pid, tier, seed, only_bounded=None, write=True, quiet=False):
     timer = Timer()
     spec = importlib.import_module('props.%s' % pid.lower()).PROP
     out = (lambda *a: None) if quiet else (lambda *a: print(*a, flush=True))
-    lock = set(load_lock().get(pid, []))
+    lock = load_lock().get(pid, {})
     findings = load_known_findings()
     violations, undecided, errors = [], [], []
     obligations, finite_obl, bounded_items = [], [], []
@@ -58,6 +58,7 @@ def run_property(pid, tier, seed, only_bounded=None, write=True, quiet=False):
             errors.append('finite %s: %s' % (name, traceback.format_exc()))
 
     failed = [o for o in obligations + finite_obl if o['status'] != 'discharged']
+    sha_now = dict((f['function'], f.get('source_sha1')) for f in functions)
 
     # ---- tier B: bounded stand-ins (run-time contracts on the real functions)
     if spec.get('bounded'):
@@ -76,24 +77,34 @@ def run_property(pid, tier, seed, only_bounded=None, write=True, quiet=False):
         except Exception:
             errors.append('bounded: ' + traceback.format_exc())
 
-    # ---- verdicts for failed obligations
+    # ---- verdicts for failed obligations (DESIGN section 7, violation rule)
     for o in failed:
         tierc = 'F' if o.get('backend') == 'finite' else 'P'
+        locked_sha = lock.get(o['name'])
+        cur_sha = sha_now.get(o.get('function'))
+        changed = locked_sha is not None and cur_sha is not None and locked_sha != cur_sha
         detail = dict(status=o['status'], backend=o.get('backend'), solver_output=o.get('solver_output'),
                       function=o.get('function'), kind=o.get('kind'), clause_text=o.get('clause_text'),
-                      model=o.get('model'), in_lock=o['name'] in lock, native=o.get('native'))
-        if o['status'] == 'sat' or o['status'] == 'violated':
-            rep = o.get('replay')   # a concrete input that was re-executed on the real code and breaks the clause
-            if rep is not None:
-                violations.append(Violation(pid, tierc, o['name'], o.get('clause', o.get('kind', 'obligation')), rep, detail))
-            elif o['name'] in lock or tierc == 'F':
-                v = Violation(pid, tierc, o['name'], o.get('clause', o.get('kind', 'obligation')), None, detail, replayable=False)
+                      model=o.get('model'), discharged_on_reference_tree=o['name'] in lock,
+                      source_sha1_reference=locked_sha, source_sha1_now=cur_sha, native=o.get('native'))
+        rep = o.get('replay')   # a concrete input that was re-executed on the real code and breaks the clause
+        if rep is not None:
+            violations.append(Violation(pid, tierc, o['name'], o.get('clause') or o.get('kind', 'obligation'), rep, detail))
+        elif tierc == 'F' and o['status'] in ('violated', 'sat'):
+            v = Violation(pid, tierc, o['name'], o.get('clause') or o.get('kind', 'obligation'), o.get('witness'), detail,
+                          replayable=o.get('witness') is not None)
+            if o.get('witness') is None:
                 v.input = dict(no_failing_input_found=True, obligation=o['name'])
-                violations.append(v)
-            else:
-                undecided.append('%s: refuted but not in obligations.lock and no replayable input' % o['name'])
+            violations.append(v)
+        elif o['name'] in lock and changed:
+            # discharged on the reference tree, the function's source text differs now, and the verifier no longer accepts it
+            v = Violation(pid, tierc, o['name'], o.get('clause') or o.get('kind', 'obligation'), None, detail, replayable=False)
+            v.input = dict(no_failing_input_found=True, obligation=o['name'], verifier=o['status'])
+            violations.append(v)
+        elif o['name'] in lock:
+            undecided.append('%s: %s although the function source is unchanged since it was discharged (solver budget / load)' % (o['name'], o['status']))
         else:
-            undecided.append('%s: %s' % (o['name'], o['status']))
+            undecided.append('%s: %s (never discharged on the reference tree: a failed proof is not a violation)' % (o['name'], o['status']))
 
     # ---- known findings
     new, known = [], []
@@ -183,6 +194,9 @@ def do_replay(path):
     if rec['tier'] == 'B':
         from . import bounded
         fails = bounded.replay(spec['bounded'], rec['item'], rec['input'])
+    elif rec['tier'] == 'F':
+        from finite import replay as frep
+        fails = frep.replay(rec['input'])
     else:
         from pyvc import driver
         fails = driver.replay(spec, rec)
@@ -195,14 +209,22 @@ def do_replay(path):
     return EXIT_OK
 
 
-def do_lock():
-    """Record the obligations discharged on the reference tree (run on the unchanged tree; committed)."""
+def do_lock(only=None):
+    """Record, per obligation discharged on the reference tree, the hash of the function source it was generated from."""
     props = sorted(f[:-3].upper() for f in os.listdir(os.path.join(ROOT, 'props')) if f.startswith('c') and f.endswith('.py'))
-    lock = {}
+    lock = load_lock()
     for pid in props:
-        code, summ = run_property(pid, 'quick', 0, only_bounded=[], write=False, quiet=True)
-        lock[pid] = sorted(o['name'] for o in summ['obligations'] if o['status'] == 'discharged')
-        print(pid, len(lock[pid]), 'obligations locked', '(exit %d)' % code)
+        if only and pid not in only:
+            continue
+        spec = importlib.import_module('props.%s' % pid.lower()).PROP
+        if not spec.get('pyvc') and not spec.get('finite'):
+            continue
+        from pyvc import driver
+        res = driver.verify_modules(spec['pyvc'], tier='thorough', prop=pid) if spec.get('pyvc') else dict(obligations=[], functions=[])
+        sha = dict((f['function'], f.get('source_sha1')) for f in res['functions'])
+        lock[pid] = dict((o['name'], sha.get(o['function'])) for o in res['obligations'] if o['status'] == 'discharged')
+        bad = [o['name'] for o in res['obligations'] if o['status'] != 'discharged']
+        print(pid, len(lock[pid]), 'obligations locked;', 'NOT discharged: %s' % bad if bad else 'all discharged')
     with open(LOCK, 'w') as f:
         json.dump(lock, f, indent=0, sort_keys=True)
 
@@ -212,7 +234,7 @@ def main(argv=None):
     if argv and argv[0] == 'replay':
         sys.exit(do_replay(argv[1]))
     if argv and argv[0] == 'lock':
-        do_lock()
+        do_lock([a.upper() for a in argv[1:]] or None)
         sys.exit(0)
     if argv and argv[0] == 'selftest':
         from selftest import run as st
